@@ -268,7 +268,7 @@ fn driver(i: usize, idl: &Idl, sigs: &[(String, String, Vec<String>)]) -> Result
             };
             let eargs: Vec<String> = ef.iter().map(|(n, _)| format!("a.{}", raw(n))).collect();
             s.push_str(&format!(
-                "            if kind == \"error:{e}\" {{\n                let a: g::{e}_Args = match from_value(sc[\"value\"].clone()) {{ Ok(a) => a, Err(x) => {{ crate::rt::harness_error(format!(\"script value does not fit {e}_Args: {{}}\", x)); return Err(varlink::context!(varlink::ErrorKind::ConnectionClosed)); }} }};\n                let _ = &a;\n                return call.reply_{sn}({args});\n            }}\n",
+                "            if kind == \"error:{e}\" {{\n                let a: g::{e}_Args = match from_value(sc[\"value\"].clone()) {{ Ok(a) => a, Err(x) => {{ crate::rt::harness_error(format!(\"script value does not fit {e}_Args: {{}}\", x)); return Err(varlink::context!(varlink::ErrorKind::ConnectionClosed)); }} }};\n                let _ = &a;\n                return g::VarlinkCallError::reply_{sn}(call, {args});\n            }}\n",
                 e = e.name,
                 sn = snake(&e.name),
                 args = eargs.join(", ")
@@ -299,7 +299,7 @@ fn driver(i: usize, idl: &Idl, sigs: &[(String, String, Vec<String>)]) -> Result
             args = cargs.join(", ")
         ));
     }
-    s.push_str("            results.push(crate::rt::end_case(client_result, if mode == \"raw\" { before } else { before + 1 }));\n        }\n        Value::Array(results)\n    }\n}\n");
+    s.push_str("            results.push(crate::rt::end_case(client_result, if mode == \"raw\" { before } else { before + 1 }, &_tap));\n        }\n        Value::Array(results)\n    }\n}\n");
     Ok(s)
 }
 
@@ -314,16 +314,15 @@ pub mod rt {
 
     pub static PROCESSED: std::sync::atomic::AtomicUsize = std::sync::atomic::AtomicUsize::new(0);
     pub struct CaseState { pub script: Value, pub seen: Vec<Value>, pub wire_requests: Vec<Value>, pub wire_replies: Vec<Value>, pub harness_errors: Vec<String>, pub server_closed: bool }
-    pub static TAP_ALIVE: std::sync::atomic::AtomicBool = std::sync::atomic::AtomicBool::new(false);
     static STATE: Mutex<Option<CaseState>> = Mutex::new(None);
 
     pub fn begin_case(case: &Value) {
         *STATE.lock().unwrap() = Some(CaseState { script: case["script"].clone(), seen: vec![], wire_requests: vec![], wire_replies: vec![], harness_errors: vec![], server_closed: false });
     }
-    pub fn end_case(client_result: Value, expect_processed: usize) -> Value {
+    pub fn end_case(client_result: Value, expect_processed: usize, tap: &std::thread::JoinHandle<()>) -> Value {
         // a oneway call returns before the server has handled it: wait for the tap thread
         let t0 = std::time::Instant::now();
-        while PROCESSED.load(std::sync::atomic::Ordering::SeqCst) < expect_processed && TAP_ALIVE.load(std::sync::atomic::Ordering::SeqCst) && t0.elapsed() < std::time::Duration::from_secs(5) {
+        while PROCESSED.load(std::sync::atomic::Ordering::SeqCst) < expect_processed && !tap.is_finished() && t0.elapsed() < std::time::Duration::from_secs(5) {
             std::thread::sleep(std::time::Duration::from_micros(50));
         }
         let st = STATE.lock().unwrap().take().unwrap();
@@ -347,11 +346,7 @@ pub mod rt {
         let mut c = Connection::default();
         c.reader = Some(BufReader::new(r));
         c.writer = Some(w);
-        TAP_ALIVE.store(true, std::sync::atomic::Ordering::SeqCst);
         let h = std::thread::spawn(move || {
-            struct Gone;
-            impl Drop for Gone { fn drop(&mut self) { TAP_ALIVE.store(false, std::sync::atomic::Ordering::SeqCst); } }
-            let _gone = Gone;
             let mut rd = BufReader::new(b.try_clone().unwrap());
             let mut wr = b;
             loop {
